@@ -181,7 +181,14 @@ def parse_results(out, harnesses):
                     or any('is not currently supported by Kani' in d or 'unsupported' in d.lower() for d in descs))
             if tool or not descs:
                 r['status'] = 'undecided'
-                r['undecided_reason'] = 'cbmc resource/unwinding/unsupported: ' + '; '.join(descs)[:300]
+                resource = ('CBMC failed' in raw or 'out of memory' in raw or 'timed out' in raw.lower() or 'timeout' in raw.lower() or not descs) \
+                    and not any('unwinding assertion' in d or 'unsupported' in d.lower() or 'not currently supported' in d for d in descs)
+                r['resource_limit'] = resource
+                r['undecided_reason'] = ('cbmc time/memory budget exhausted' if resource else 'cbmc unwinding/unsupported: ' + '; '.join(descs)[:300])
+        if r['status'] == 'missing' and ('Checking harness' in raw or raw.strip()):
+            r['status'] = 'undecided'
+            r['resource_limit'] = True
+            r['undecided_reason'] = 'cbmc time/memory budget exhausted (no verdict printed)'
         if r['status'] == 'success' and r['covers'] and r['covers'][0] != r['covers'][1]:
             r['status'] = 'undecided'
             r['undecided_reason'] = 'vacuity guard: %d of %d cover points satisfied' % r['covers']
